@@ -150,8 +150,40 @@ def robust_scale_in_solver_noise(R, tap, y):
     return False
 
 
+_LAYOUT_COUNTER = [0]
+
+
+def hostile_layout(args):
+    """Every other case hands the 1-d array arguments over as non-contiguous views (both worlds get the same views): a
+    kernel whose signature promises contiguity it does not have reads neighbouring memory when compiled, not when
+    interpreted."""
+    from .. import smooth as S
+
+    _LAYOUT_COUNTER[0] += 1
+    if _LAYOUT_COUNTER[0] % 2:
+        return args, "contiguous"
+    out = []
+    for a in args:
+        if isinstance(a, np.ndarray) and a.ndim == 1 and a.size >= 2:
+            out.append(S.present(a, a.dtype)[0])
+        else:
+            out.append(a)
+    return out, "views"
+
+
+def _cp(a, layout):
+    """A private copy of an argument in the same memory layout."""
+    from .. import smooth as S
+
+    if layout == "views" and a.ndim == 1 and a.size >= 2:
+        return S.present(np.ascontiguousarray(a), a.dtype)[0]
+    return a.copy()
+
+
 def compare_case(R, p, dtype, cls, args, deep=False):
     name = p.name
+    args, layout = hostile_layout(args)
+    R.count(f"argument_layout_{layout}")
     case = {"program": name, "dtype": dtype, "cls": cls, "deep": deep, "args": [a if not isinstance(a, type) else a.__name__ for a in args]}
     if deep:
         R.count("deep_pairs")
@@ -160,7 +192,7 @@ def compare_case(R, p, dtype, cls, args, deep=False):
     with warnings.catch_warnings():
         warnings.simplefilter("ignore")
         try:
-            comp = f(*[a.copy() if isinstance(a, np.ndarray) else a for a in args])
+            comp = f(*[_cp(a, layout) if isinstance(a, np.ndarray) else a for a in args])
         except Exception as e:
             R.count(f"compiled_raises_{type(e).__name__}")
             comp = e
@@ -169,7 +201,7 @@ def compare_case(R, p, dtype, cls, args, deep=False):
     with warnings.catch_warnings(record=True) as wlist, np.errstate(all="warn"):
         warnings.simplefilter("always")
         try:
-            iflat, tap = run_interpreted(p, [a.copy() if isinstance(a, np.ndarray) else a for a in args], cflat if cflat is not None else [], deep)
+            iflat, tap = run_interpreted(p, [_cp(a, layout) if isinstance(a, np.ndarray) else a for a in args], cflat if cflat is not None else [], deep)
             ierr = None
         except Exception as e:
             iflat, tap, ierr = None, None, e
